@@ -22,6 +22,9 @@
         `LexErr`, `LexErr.label` (`string_literal`, `escape_code`, `unicode_escape`, `quoted_literal`,
         `Error::offset_by`, `DiagnosticMessage::labels for Error`), and the nested lexer that
         `query_start` runs on `&input[pos + 1..]` inside a delimited region of a query.
+        The model follows the repaired code: /repo 45c5794 (`EscapeChar` label = the whole
+        character, `start + len_utf8(ch)`) and 694e815 (the nested lexer's `StringLiteral` error is
+        reported at the opening quote `pos`, not at `pos + 1`).
 -/
 
 namespace Spans
